@@ -116,12 +116,12 @@ def corpus_cases():
 
 def extra_stage(tier, rng, work):
     """black-box tier: a real worker thread, real sockets, a seeded mix of session outcomes (complete, keep-alive,
-    client reset, reset mid-request, backend refusal, idle close, idle until the front timeout, storm above
-    max_connections); QueryMetrics gauges compared with the idle baseline; runs through the `bb` op of the driver"""
+    client reset, reset mid-request, backend refusal, idle close, idle until the front timeout, TCP relay complete /
+    reset / backend refusal, storm above max_connections); QueryMetrics gauges compared with the idle baseline; runs through the `bb` op of the driver"""
     if tier == "thorough":
-        cfgs = [(rng.randrange(1, 10 ** 6), mx, lim, 16) for mx in (1, 2, 5) for lim in (0, 1, 2)]
+        cfgs = [(rng.randrange(1, 10 ** 6), mx, lim, 30) for mx in (1, 2, 5) for lim in (0, 1, 2)]
     else:
-        cfgs = [(rng.randrange(1, 10 ** 6), 1, 0, 8), (rng.randrange(1, 10 ** 6), 2, 1, 8)]
+        cfgs = [(rng.randrange(1, 10 ** 6), 1, 0, 12), (rng.randrange(1, 10 ** 6), 2, 1, 12)]
     cases = [Case("bb%d_%d_%d" % (i, c[1], c[2]), [["bb"] + list(c)], {}) for i, c in enumerate(cfgs)]
     outs, problems = vlib.run_harness(HARNESS_BIN, cases, os.path.join(work, "bb"), "release", timeout=1200, shards=len(cases))
     viols, fails = [], list(problems)
